@@ -186,12 +186,21 @@ def c11_rest(ctx, facts, nr, memo):
     # on every path (a conditional wake-up leaves later pipelined requests in the queue until an earlier one is answered
     # and its thread comes back to recv)
     Q.rule_notify_after_push(ctx, "C11.5")
+    # ---- C11.7 the successors of a request that does not end the connection go on being read: the parser's keep-alive table (C12.1)
+    import rules_C12, engine
+    c12 = engine.Ctx("C11", "quick", facts, 0)
+    try:
+        rules_C12.keepalive_table(c12)
+        n7 = engine.take_over(ctx, c12.obs, lambda o: o.rule == "C12.1" and o.key.split("|")[-1] in ("table", "atoms", "haystack"), "C11.7")
+        ctx.floor("C11.7 obligations taken from the keep-alive table", n7, 2)
+    except CheckerError as e:
+        ctx.ob("C11.7", "keep-alive-table", "the parser's keep-alive decision could be extracted", False, "client.rs", str(e))
     # ---- C11.6 discarding the unread body of an answered or dropped request leaves the successor's bytes where they are (it then becomes
     # available): the drain of the length-limited reader takes exactly the bytes owed (rules of C09.2)
     import drain_rules as DR
-    sk = shared.size_key_of(facts, ER)
+    sk = shared.size_init(facts, ER)
     ctx.require(sk is not None, "C11.6: remaining-size field of the length-limited reader")
-    DR.owed_rules(ctx, "C11.6", ER, (1, "*") + sk)
+    DR.owed_rules(ctx, "C11.6", ER, sk)
     return {}
 
 
